@@ -494,6 +494,27 @@ impl Scenario for Std {
                     },
                     out,
                 );
+                // the tree stays usable: the file name the next table / blob file will get must be free
+                // (both writers create their file with create_new, so a taken name fails the next
+                // flush, ingestion or compaction with AlreadyExists)
+                {
+                    let next = d.t().next_table_id();
+                    if d.dir.join("tables").join(next.to_string()).exists() {
+                        out.push(oracles::v(
+                            "ids:next-table-id-taken",
+                            format!("the table id counter stands at {next} but tables/{next} exists: the next table to be written cannot be created"),
+                        ));
+                    }
+                    if d.cfg.blob.is_some() {
+                        let nb = lsm_tree::verif_hooks::blob_file_id_counter(d.inner());
+                        if d.dir.join("blobs").join(nb.to_string()).exists() {
+                            out.push(oracles::v(
+                                "ids:next-blob-file-id-taken",
+                                format!("the blob file id counter stands at {nb} but blobs/{nb} exists: the next blob file cannot be created"),
+                            ));
+                        }
+                    }
+                }
                 if matches!(op, Some(Op::Reopen)) {
                     let hist = lsm_tree::verif_hooks::history(d.inner());
                     let last = hist.last().unwrap();
